@@ -1632,6 +1632,10 @@ def damage_batch(acc: Acc, fixture, kind, writer, descs):
                 if v != ref[q_] and A.get(q_) == v:
                     ref[q_] = v
             _judge_untrusted(acc, who, "damaged@%s" % region, A, ref, what, replay)
+            if os.environ.get("VERIF_C14_TRACE"):  # debugging aid: per-mutant verdict, one line each
+                dd = diff(ref, A)
+                with open(os.environ["VERIF_C14_TRACE"], "a") as tf:
+                    tf.write("%s %r %s\n" % (who, desc, "same" if not dd else ",".join(sorted({str(v[1])[:40] for v in dd.values()}))))
             continue
         if o.kind == "exc":
             raise HarnessError("sandboxed damage evaluation failed: %r (%s)" % (o.value, what))
